@@ -61,6 +61,7 @@ class WcBase(HookMixin, WorkChain):
         return obj
 
     def _run_step(self, name):
+        _hook_point(self, 'step:' + name, 'entry')  # before any effect of the step (mid-step checkpoints are taken here)
         k = self._count(name)
         w = world.cur()
         pid = self.pid
